@@ -27,13 +27,15 @@ class Outcome:
 
 
 class SlotInterp:
-    def __init__(self, P, cells, opaque_ok=()):
+    def __init__(self, P, cells, opaque_ok=(), bool_cells=()):
         """cells: tuple of field paths (tuples) of the tracked object that are slots.
         A state is a tuple of bools aligned with `cells`."""
         self.P = P
         self.cells = tuple(cells)
         self.budget = 0
         self.opaque_ok = set(opaque_ok)
+        # indexes of cells whose tracked bit is the *value* of a bool behind the lock
+        self.bool_cells = set(bool_cells)
 
     # ---- helpers
     def cell_of(self, path):
@@ -220,6 +222,11 @@ class SlotInterp:
             p = op["p"]
             if len(p) == 1:
                 return env.get(p[0], UNKNOWN)
+            if self.bool_cells and "*" in p:
+                for opath in self.obj_paths(body, body.place_prov(p), binding):
+                    ci, rest = self.cell_of(opath)
+                    if ci is not None and not rest and ci in self.bool_cells:
+                        return 1 if st[ci] else 0
             return UNKNOWN
         return UNKNOWN
 
